@@ -302,6 +302,32 @@ def formulas_of_snapshot(snapshot):
   return out
 
 
+def summary_keys_object_valued(snapshot, summary_table_id):
+  """Snapshot version of summary_groupby_record_valued: does a group-by column of this summary table, or the source
+  column it copies, hold an encoded object (anything but a plain list in a list-typed column) or NaN?"""
+  t = snapshot.get('_grist_Tables'); c = snapshot.get('_grist_Tables_column')
+  if not t or not c:
+    return False
+  tref = [r for r in t['id'] if t['tableId'].get(r) == summary_table_id]
+  if not tref:
+    return False
+  tname = {r: t['tableId'].get(r) for r in t['id']}
+  def bad(v, is_list_col):
+    if isinstance(v, list) and v and (v[0] != 'L' or not is_list_col):
+      return True
+    return isinstance(v, float) and v != v
+  for r in c['id']:
+    if c['parentId'].get(r) == tref[0] and c['summarySourceCol'].get(r):
+      src = c['summarySourceCol'].get(r)
+      for (tab, col, typ) in ((summary_table_id, c['colId'].get(r), c['type'].get(r) or ''),
+                              (tname.get(c['parentId'].get(src)), c['colId'].get(src), c['type'].get(src) or '')):
+        is_list = typ.split(':')[0] in ('ChoiceList', 'RefList')
+        vals = (snapshot.get(tab) or {}).get(col) or {}
+        if any(bad(v, is_list) for v in (vals.values() if isinstance(vals, dict) else vals)):
+          return True
+  return False
+
+
 def summary_source_of(snapshot, summary_table_id):
   t = snapshot.get('_grist_Tables')
   if not t:
@@ -428,6 +454,12 @@ def judge_state_diff(ref, obs, full_log, upto):
     e = structural[0]
     what = e[1] if e[1] in ('row ids',) or e[1].startswith('table only') else 'column-set'
     tcat = e[0] if e[0].startswith('_grist_') else ('summarytable' if e[0] in (summary_tables_of(ref) | summary_tables_of(obs)) else 'usertable')
+    if tcat == 'summarytable' and what == 'row ids' and (summary_keys_object_valued(ref, e[0]) or
+                                                       summary_keys_object_valued(obs, e[0])):
+      # group-by cells holding records / errors / lists in a scalar column / NaN: the listed finding
+      # summary-groupby-object-valued (such keys do not survive encoding), outside the generated domain
+      labels.append('summary-groupby-object-valued(not judged)')
+      return None, labels
     if tcat == 'summarytable' and what == 'row ids' and all(x[0] == e[0] for x in structural):
       # Which summary rows exist follows from the source table's group-by cells. If such a (formula) cell was
       # already stale in the reference state, the summary rows of the reference state are stale too: C05 matter.
